@@ -1,9 +1,11 @@
 package main
 
 import (
+	"path/filepath"
 	"time"
 
 	"verif/harness/gen"
+	"verif/harness/wire"
 )
 
 // randomUniverse draws n seeded random cases (each with its own table rows).
@@ -49,11 +51,93 @@ func mixCheck(rc *RunCtx, quick, thorough map[string]string, nRandQuick, nRandTh
 	rc.execFamily(r, prefixes...)
 }
 
+// typesUniverse: MC_Types replayed with float64 and json.Number documents,
+// plus json.Number texts outside the float64 / int64 ranges in every slot.
+func typesUniverse(rc *RunCtx) *ExecUniverse {
+	if rc.runMC("MC_Types", []string{"Inv"}, nil, 30*time.Minute) == nil {
+		return nil
+	}
+	u, err := rc.loadMCUniverse()
+	if err != nil {
+		rc.infra("universe: %v", err)
+		return nil
+	}
+	nd := len(u.Docs)
+	u.addJNumDocs()
+	for _, t := range []string{"1e400", "-1e400", "1e-400", "92233720368547758070", "-92233720368547758070", "9223372036854775808", "1E+309"} {
+		j := wire.JNum(t)
+		u.Docs = append(u.Docs, DocRow{Doc: j}, DocRow{Doc: wire.Arr(j)}, DocRow{Doc: wire.Arr(wire.Float(1), wire.Float(2.5), j)},
+			DocRow{Doc: wire.Obj("a", j)})
+	}
+	_ = nd
+	// the variable x takes each special value too
+	base := u.Vars[0]
+	for _, t := range []string{"1e400", "92233720368547758070"} {
+		u.Vars = append(u.Vars, VarsRow{Vars: []wire.Var{{K: base.Vars[0].K, V: wire.JNum(t)}}})
+	}
+	for pi := range u.Paths {
+		for di := range u.Docs {
+			for _, lax := range []bool{true, false} {
+				u.Cases = append(u.Cases, CaseRef{PI: pi + 1, DI: di + 1, VI: 1, Lax: lax, Zone: "UTC"})
+			}
+		}
+		for vi := 2; vi <= len(u.Vars); vi++ {
+			u.Cases = append(u.Cases, CaseRef{PI: pi + 1, DI: 1, VI: vi, Lax: true, Zone: "UTC"})
+		}
+	}
+	rc.cov("types_universe", map[string]any{"paths": len(u.Paths), "docs": len(u.Docs), "cases": len(u.Cases)})
+	return u
+}
+
 func init() {
 	small := map[string]string{"MaxSteps": "2", "MaxNodes": "2"}
 	mid := map[string]string{"MaxSteps": "2", "MaxNodes": "3"}
-	checks["C01"] = func(rc *RunCtx) { mixCheck(rc, mid, mid, 20000, 400000, "C01") }
-	checks["C05"] = func(rc *RunCtx) { mixCheck(rc, small, mid, 20000, 300000, "C05") }
+	checks["C01"] = func(rc *RunCtx) {
+		mixCheck(rc, mid, mid, 20000, 400000, "C01")
+		// the context templates of C09 (constructs that rebind @ / last / leniency,
+		// left through each exit): the master conformance check covers them too
+		if rc.runMC("MC_C09", []string{"Inv"}, map[string]string{"MaxSteps": "1", "MaxNodes": "2"}, 30*time.Minute) == nil {
+			return
+		}
+		u := &ExecUniverse{Vars: []VarsRow{{Vars: []wire.Var{}}}}
+		var err error
+		if u.Paths, err = readNDJSON[PathRow](filepath.Join(rc.Dir, "paths.ndjson")); err != nil {
+			rc.infra("%v", err)
+			return
+		}
+		if u.Docs, err = readNDJSON[DocRow](filepath.Join(rc.Dir, "ctxdocs.ndjson")); err != nil {
+			rc.infra("%v", err)
+			return
+		}
+		u.cross([]bool{true, false})
+		rc.cov("context_templates", map[string]any{"paths": len(u.Paths), "docs": len(u.Docs), "cases": len(u.Cases)})
+		rc.execFamily(u, "C01")
+		if rc.Tier == "thorough" {
+			if t := typesUniverse(rc); t != nil {
+				rc.execFamily(t, "C01")
+			}
+		}
+	}
+	checks["C05"] = func(rc *RunCtx) {
+		mixCheck(rc, small, mid, 20000, 300000, "C05")
+		if u := typesUniverse(rc); u != nil {
+			rc.execFamily(u, "C05")
+		}
+	}
 	checks["C06"] = func(rc *RunCtx) { mixCheck(rc, small, mid, 20000, 300000, "C06") }
-	checks["C08"] = func(rc *RunCtx) { mixCheck(rc, small, mid, 20000, 300000, "C08") }
+	checks["C08"] = func(rc *RunCtx) {
+		mixCheck(rc, small, mid, 20000, 300000, "C08")
+		// failing step / leaking suppression templates, the failing item at every position
+		if rc.runMC("MC_C08", []string{"Inv"}, nil, 30*time.Minute) == nil {
+			return
+		}
+		u, err := rc.loadMCUniverse()
+		if err != nil {
+			rc.infra("universe: %v", err)
+			return
+		}
+		u.cross([]bool{true, false})
+		rc.cov("leak_templates", map[string]any{"paths": len(u.Paths), "docs": len(u.Docs), "cases": len(u.Cases)})
+		rc.execFamily(u, "C08")
+	}
 }
